@@ -158,6 +158,14 @@ package proxy
 //@   at-call NewConn as nc: assert arg0 == conn && len(arg1) == 2 && arg1[0] == res(wp) && arg1[1] == res(to)
 //@   ensures [wrapped] called(nc) && ref(result) == res(nc)
 
+// (C16) The watcher of a transition: the new backend connection is closed by the watcher only together with the
+// "deadline exceeded" verdict for the request, i.e. only when the handler had NOT been deactivated (a switch that already
+// succeeded is never torn down by a late cancellation of its request context).
+//@ func (*backendTransitionSessionHandler).Activated$1
+//@   props C16
+//@   at-call result as rs: assert arg0 == b.requestCtx && arg1 == nil && arg2 != nil
+//@   at-call disconnect as dc: assert [watcher-closes-the-backend-only-with-the-timeout-verdict] called(rs) && arg0 == b.serverConn
+
 // ---- C17: fallback / initial server choice ------------------------------------------------------------
 
 // sameServerName(server object, name): the registered server's name equals name (deterministic; ServerInfo is immutable).
